@@ -124,7 +124,7 @@ def run(ctx, chk):
     size_off = prog.field_offset("_cbor_stack", "size")
     item_off = prog.field_offset("_cbor_stack_record", "item")
     root_off = prog.field_offset("_cbor_decoder_context", "root")
-    ps = P.Executor(prog, eff, loop_bound=2).run("cbor_load")
+    ps = P.Executor(prog, eff, loop_bound=2, inline=O.static_callees(prog, eff, "cbor_load")).run("cbor_load")
     ndr = 0
     for k, pa in enumerate(ps):
         decs = pa.calls("cbor_stream_decode")
